@@ -8,12 +8,13 @@ CONSTANTS
   RNy <- RNyAll
   ROffH <- ROffQuick
   RPosQ <- RPosSet
-  RYstep <- YstepAll
+  RYstep <- YstepQuick
   RScan <- RScanAll
   RPadMode <- RPadModes
   RYminMode <- RYminModes
   PMaxN = 12
   PMaxW = 16
+  PMaxP = 16
 INVARIANT TypeRecon
 INVARIANT PadNonNegative
 INVARIANT GridCoversScan
@@ -24,5 +25,6 @@ INVARIANT RowCoordIndependentOfDiagonal
 INVARIANT WholeScanInFrame
 INVARIANT XiZeroCharacterised
 INVARIANT XiEdgeIncreasing
+INVARIANT FitInverts
 INVARIANT EmitRecon
 CHECK_DEADLOCK FALSE
